@@ -65,6 +65,49 @@ def candidates(tree):
                 out.append(("commute-add", n, None))
             elif isinstance(n, ast.If) and n.orelse and not (len(n.orelse) == 1 and isinstance(n.orelse[0], ast.If)) and not isinstance(n.test, ast.BoolOp):
                 out.append(("flip-if", n, None))
+        # statement lists of this function (not of nested functions): guard clauses, conditional expressions <-> statements, comprehension -> loop
+        def _terminates(body):
+            last = body[-1]
+            if isinstance(last, (ast.Return, ast.Raise)):
+                return True
+            if isinstance(last, ast.If) and last.orelse:
+                return _terminates(last.body) and _terminates(last.orelse)
+            return False
+        lists = []
+        stack = [fn.body]
+        while stack:
+            L = stack.pop()
+            lists.append(L)
+            for st in L:
+                if isinstance(st, (ast.FunctionDef, ast.ClassDef)):
+                    continue
+                for fld in ("body", "orelse", "finalbody"):
+                    sub = getattr(st, fld, None)
+                    if isinstance(sub, list) and sub and isinstance(sub[0], ast.stmt):
+                        stack.append(sub)
+                if isinstance(st, ast.Match):
+                    for c_ in st.cases:
+                        stack.append(c_.body)
+        names_used = [n.id for n in ast.walk(fn) if isinstance(n, ast.Name)] + [a.arg for a in ast.walk(fn) if isinstance(a, ast.arg)]
+        for L in lists:
+            for i, st in enumerate(L):
+                if isinstance(st, ast.If) and st.orelse and _terminates(st.body):
+                    out.append(("guard-clause", (L, i), None))
+                if isinstance(st, ast.Return) and isinstance(st.value, ast.IfExp):
+                    out.append(("ifexp-to-if", (L, i), None))
+                if isinstance(st, ast.If) and len(st.body) == 1 and len(st.orelse) == 1 and isinstance(st.body[0], ast.Return) and isinstance(st.orelse[0], ast.Return) \
+                        and st.body[0].value is not None and st.orelse[0].value is not None:
+                    out.append(("if-to-ifexp", (L, i), None))
+                if isinstance(st, ast.Assign) and len(st.targets) == 1 and isinstance(st.targets[0], ast.Name):
+                    v = st.value
+                    comp = v.args[0] if isinstance(v, ast.Call) and isinstance(v.func, ast.Name) and v.func.id == "list" and len(v.args) == 1 and isinstance(v.args[0], ast.GeneratorExp) else (v if isinstance(v, ast.ListComp) else None)
+                    if comp is not None and len(comp.generators) == 1 and not comp.generators[0].ifs and not comp.generators[0].is_async:
+                        tnames = [n.id for n in ast.walk(comp.generators[0].target) if isinstance(n, ast.Name)]
+                        inside = [n.id for n in ast.walk(comp) if isinstance(n, ast.Name)]
+                        # the loop variable leaks into the function scope: only when the names are used nowhere else in the function
+                        if tnames and all(names_used.count(t) == inside.count(t) for t in tnames) and st.targets[0].id not in inside \
+                                and not any(isinstance(x, (ast.Lambda, ast.GeneratorExp, ast.ListComp)) for x in ast.walk(comp.elt)):
+                            out.append(("comp-to-loop", (L, i, comp), None))
         for i, st in enumerate(fn.body):
             if isinstance(st, (ast.Assign, ast.Return)) and isinstance(st.value, ast.Call):
                 for j, a_ in enumerate(st.value.args):
@@ -95,6 +138,35 @@ def apply(kind, node, extra, rng):
         node.test = ast.UnaryOp(op=ast.Not(), operand=node.test)
         node.body, node.orelse = node.orelse, node.body
         return f"flip if/else at line {node.lineno}"
+    if kind == "guard-clause":
+        L, i = node
+        st = L[i]
+        rest, st.orelse = st.orelse, []
+        L[i + 1:i + 1] = rest
+        return f"guard clause instead of else at line {st.lineno}"
+    if kind == "ifexp-to-if":
+        L, i = node
+        st = L[i]
+        e = st.value
+        L[i:i + 1] = [ast.If(test=e.test, body=[ast.Return(value=e.body)], orelse=[], lineno=st.lineno), ast.Return(value=e.orelse, lineno=st.lineno)]
+        return f"conditional expression -> if / return at line {st.lineno}"
+    if kind == "if-to-ifexp":
+        L, i = node
+        st = L[i]
+        L[i] = ast.Return(value=ast.IfExp(test=st.test, body=st.body[0].value, orelse=st.orelse[0].value), lineno=st.lineno)
+        return f"if / else returns -> conditional expression at line {st.lineno}"
+    if kind == "comp-to-loop":
+        L, i, comp = node
+        st = L[i]
+        name = st.targets[0].id
+        g = comp.generators[0]
+        loop = ast.For(target=g.target, iter=g.iter, orelse=[], lineno=st.lineno,
+                       body=[ast.Expr(value=ast.Call(func=ast.Attribute(value=ast.Name(id=name, ctx=ast.Load()), attr="append", ctx=ast.Load()), args=[comp.elt], keywords=[]))])
+        for n in ast.walk(g.target):
+            if isinstance(n, ast.Name):
+                n.ctx = ast.Store()
+        L[i:i + 1] = [ast.Assign(targets=[ast.Name(id=name, ctx=ast.Store())], value=ast.List(elts=[], ctx=ast.Load()), lineno=st.lineno), loop]
+        return f"comprehension -> append loop for {name} at line {st.lineno}"
     if kind == "temp-arg":
         fn, i, j = node
         st = fn.body[i]
@@ -110,12 +182,17 @@ def apply(kind, node, extra, rng):
         fn.body[i:i + 1] = [ast.Assign(targets=[ast.Name(id=tmpn, ctx=ast.Store())], value=ret.value, lineno=ret.lineno), ast.Return(value=ast.Name(id=tmpn, ctx=ast.Load()))]
         return f"return through a temporary in {fn.name}"
 
+KINDS: set = set()
+
+
 def one(job):
     rel, idx, seed = job
     rng = random.Random(seed)
     src = open(os.path.join(PKG, rel)).read()
     tree = ast.parse(src)
     cands = candidates(tree)
+    if KINDS:
+        cands = [c for c in cands if c[0] in KINDS]
     if not cands:
         return None
     kind, node, extra = cands[idx % len(cands)]
@@ -155,10 +232,19 @@ def one_noop(rel):
 if __name__ == "__main__":
     import argparse
     ap = argparse.ArgumentParser(); ap.add_argument("--n", type=int, default=100); ap.add_argument("--seed", type=int, default=1); ap.add_argument("--files", default=""); ap.add_argument("--out", default="/tmp/benign.json")
+    ap.add_argument("--kinds", default="", help="comma separated edit kinds; with --all every candidate of these kinds in every file is tried once")
+    ap.add_argument("--all", action="store_true")
     a = ap.parse_args()
     files = a.files.split(",") if a.files else anchored_files()
     rng = random.Random(a.seed)
-    jobs = [(rng.choice(files), rng.randrange(10**6), rng.randrange(10**6)) for _ in range(a.n)]
+    KINDS.update(k for k in a.kinds.split(",") if k)
+    if a.all:
+        jobs = []
+        for rel in files:
+            n_c = len([c for c in candidates(ast.parse(open(os.path.join(PKG, rel)).read())) if not KINDS or c[0] in KINDS])
+            jobs += [(rel, i, rng.randrange(10**6)) for i in range(n_c)]
+    else:
+        jobs = [(rng.choice(files), rng.randrange(10**6), rng.randrange(10**6)) for _ in range(a.n)]
     with ThreadPoolExecutor(12) as ex:
         base = list(ex.map(one_noop, files))
         res = [r for r in ex.map(one, jobs) if r]
